@@ -67,15 +67,21 @@ def _task(args):
             for o in p.obls:
                 wf = witness_for(o)
                 if wf is not None:
-                    # an obligation an open finding is recorded for: first under the negated witness
-                    # quick outright attempt (it passes once the defect is repaired), then under the negated witness
-                    v = solve.discharge(p, o, max(2000, timeout_ms // 6), use_cvc5=False, hint=hints_for(o.name))
-                    if v.status != "discharged":
-                        v = retry_without_witness(ex, p, o, v, timeout_ms)
-                        if not v.status.startswith("known:"):
-                            v = solve.discharge(p, o, timeout_ms, hint=hints_for(o.name))
+                    # an obligation an open finding is recorded for: under the negated witness first (fast); if that
+                    # holds, a short outright attempt tells whether the defect is still there
+                    v = retry_without_witness(ex, p, o, solve.Verdict("unknown", "z3", 0.0, "outright attempt pending"), timeout_ms)
+                    if v.status.startswith("known:"):
+                        w = solve.discharge(p, o, 4000, use_cvc5=False, hint=hints_for(o.name))
+                        if w.status == "discharged":
+                            v = w
+                        else:
+                            v.detail = "fails outright within a short budget (%s); discharged under the negated witness" % w.detail
+                    else:
+                        v = solve.discharge(p, o, timeout_ms, hint=hints_for(o.name))
                 else:
                     v = solve.discharge(p, o, timeout_ms, hint=hints_for(o.name))
+                if os.environ.get("PVC_LEARN") and v.status == "discharged" and v.secs > 0.8 and not z3_is_and(o.goal):
+                    v = fastest_strategy(p, o, v)
                 r = {"name": o.name, "norm": norm(o.name), "path": k, "status": v.status, "backend": v.backend,
                      "secs": round(v.secs, 3), "tags": o.tags, "kind": o.kind, "detail": v.detail,
                      "decisions": p.labels}
@@ -88,6 +94,27 @@ def _task(args):
         out["error"] = traceback.format_exc()
     out["wall_s"] = time.time() - t0
     return out
+
+
+def z3_is_and(g):
+    import z3
+    return z3.is_and(g) and len(g.children()) > 1
+
+
+def fastest_strategy(p, o, v):
+    """(learning runs only) time every strategy on a slow obligation; report them fastest first"""
+    from .zs import base_axioms
+    hy = solve.hyps_of(p, o)
+    rel = solve.relevant(hy, o.goal)
+    times = []
+    for key in solve.STRATEGIES[:-1]:
+        r, secs, _ = solve._run_strategy(key, base_axioms(), hy, rel, o.goal, 40000)
+        if r is not None and str(r) == "unsat":
+            times.append((secs, key))
+    times.sort()
+    if times:
+        return solve.Verdict("discharged", "+".join(k for _, k in times[:3]), times[0][0])
+    return v
 
 
 _HINTS = None
